@@ -130,8 +130,10 @@ def fn_has_param_invoke(fn):
 
 def call_nodes(ig, name=None, callee_re=None, live=None):
     rx = re.compile(callee_re) if callee_re else None
+    if live is None:
+        live = ig.live_nodes()      # the dead arm of `if (TEMPLATE_FLAG)` is not part of the instance (seed C14-5)
     for n in ig.ev_nodes():
-        if live is not None and n.id not in live:
+        if n.id not in live:
             continue
         ev = n.ev
         if ev["e"] not in ("call", "ctor"):
@@ -776,3 +778,31 @@ def lambda_of(ig, desc):
             continue
         break
     return None
+
+
+def flag_forwarding(ctx, rule, fb, rec_re, names, flags, why, same_name=True):
+    """K23 FLAG-FORWARDING: an overload of a public operation that has no bool template flag of its own is the default entry
+    point and forwards `true` for every flag in `flags` of the sibling it calls; an overload that has the flag hands its
+    own value down. Returns the number of forwarding calls examined."""
+    rx = re.compile(rec_re)
+    n = 0
+    for fn in fb.find(pred=lambda f: rx.match(f.record or "") and f.name in names and f.has_cfg() and not f.lambda_):
+        for _, ev in fn.all_events():
+            callee = fn.tu.fns.get(ev.get("cid")) if ev["e"] == "call" else None
+            if callee is None or callee.record != fn.record or callee.name not in names or (same_name and callee.name != fn.name):
+                continue
+            for flag in flags:
+                theirs = tparam(callee, flag)
+                if theirs is None:
+                    continue
+                mine = tparam(fn, flag)
+                want = mine if mine is not None else "true"
+                n += 1
+                ctx.ob(rule, "%s@%s:%s" % (short(fn), ev.get("line", fn.line), flag), theirs == want, fn.loc,
+                       "%s forwards to %s<%s=%s> %s: %s" % (fn.name, callee.name, flag, theirs,
+                                                          "although it is the entry point without flags (the default is the safe, "
+                                                          "fully concurrent / sleeping / waking variant)" if mine is None else
+                                                          "although its own %s is %s" % (flag, mine), why),
+                       site="%s::%s%s@flag-%s" % (re.sub(r"<.*", "", fn.record).replace("babylon::", ""), fn.name,
+                                                  "" if mine is None else "<flags>", flag))
+    return n
